@@ -151,6 +151,24 @@ def families():
             rid = P.request_id(0, 1, 1, r.getrandbits(11), 3, r.getrandbits(14))
             return P.tm(r.getrandbits(11), r.getrandbits(14), 1, sub, 0, 0, 0, rand_bytes(r, ts), P.srv1_source_data(rid, step, code, rand_bytes(r, r.choice((0, 3))) if code else b""))
         F[f"srv1[{ts},{sw},{cw}]"] = (b, [f"Service1Tm.unpack[ts={ts},step={sw},code={cw}]"])
+    def embed_crc(build, r):
+        """A TC / TM whose data contain, at a random position, the CRC-16 of everything in front of it: the prefix ending there has
+        a zero CRC residue although the length field promises more."""
+        from spverif.ref.crc import crc16 as _crc
+        n = r.randrange(4, 24)
+        k = r.randrange(2, n + 1)                      # the embedded CRC occupies data[k-2:k]
+        probe = build(bytes(n))
+        start = len(probe) - 2 - n                     # offset of the data inside the packet
+        data = bytearray(r.randbytes(n))
+        first = build(bytes(data))
+        data[k - 2:k] = _crc(first[:start + k - 2]).to_bytes(2, "big")
+        out = build(bytes(data))
+        assert _crc(out[:start + k]) == 0
+        return out
+    F["tc_embedded_crc"] = (lambda r: embed_crc(lambda d, a=r.getrandbits(11), c=r.getrandbits(14), sv=r.getrandbits(8), sb=r.getrandbits(8), si=r.getrandbits(16): P.tc(a, c, sv, sb, si, 0xF, d), r),
+                            ["PusTc.unpack"])
+    F["tm_embedded_crc"] = (lambda r: embed_crc(lambda d, a=r.getrandbits(11), c=r.getrandbits(14), sb=r.getrandbits(8), ts=r.randbytes(7): P.tm(a, c, 17, sb, 0, 0, 0, ts, d), r),
+                            ["PusTm.unpack[ts=7]", "Service17Tm.unpack[ts=7]"])
     F["cds"] = (lambda r: T.encode(r.getrandbits(16), r.randrange(86_400_000)), ["CdsShortTimestamp.unpack", "CdsShortTimestamp.unpack_from_raw", "CdsShortTimestamp.read_from_raw"])
     F["request_id"] = (lambda r: P.request_id(r.getrandbits(3), r.getrandbits(1), r.getrandbits(1), r.getrandbits(11), r.getrandbits(2), r.getrandbits(14)), ["RequestId.unpack"])
     for pfc in (8, 16, 32, 64):
